@@ -28,6 +28,7 @@
 #include "opentelemetry/trace/span_context_kv_iterable_view.h"
 #include "opentelemetry/trace/span_startoptions.h"
 #include "opentelemetry/trace/trace_state.h"
+#include "opentelemetry/trace/scope.h"
 #include "opentelemetry/trace/tracer.h"
 
 #include <array>
@@ -986,6 +987,100 @@ static void tracer_part(Rng &r, const RatioSet &rs, size_t spans_per_ratio)
   }
 }
 
+// A sampler object the provider can own that forwards to a shared recording delegate.
+class FwdSampler : public trace_sdk::Sampler
+{
+public:
+  explicit FwdSampler(std::shared_ptr<RecSampler> r) : r_(std::move(r)) {}
+  trace_sdk::SamplingResult ShouldSample(const trace_api::SpanContext &parent, trace_api::TraceId id, nostd::string_view name,
+                                         trace_api::SpanKind kind, const common::KeyValueIterable &attrs,
+                                         const trace_api::SpanContextKeyValueIterable &links) noexcept override
+  {
+    return r_->ShouldSample(parent, id, name, kind, attrs, links);
+  }
+  nostd::string_view GetDescription() const noexcept override { return "FwdSampler"; }
+
+private:
+  std::shared_ptr<RecSampler> r_;
+};
+
+// Every delegate through a real Tracer: the started span's sampled bit is the delegate's decision (sampled only
+// for RECORD_AND_SAMPLE - a RECORD_ONLY span records but does not propagate as sampled), and a local child started
+// under ParentBased repeats its parent's bit without consulting the delegate.  Added after the seeded change
+// C12-w3-1 (sampled bit taken from IsRecording) was missed: only the ratio sampler used to sit behind a Tracer.
+static void tracer_delegate_part(Rng &r, const RatioSet &rs, size_t spans)
+{
+  auto &R = vf::report();
+  std::string dkind;
+  double ratio                    = rs.ratio[r.below(4)];
+  std::shared_ptr<RecSampler> rec = gen_delegate(r, ratio, &dkind);
+  bool via_parent_based           = r.coin();
+  std::unique_ptr<trace_sdk::Sampler> sampler;
+  if (via_parent_based)
+    sampler.reset(new trace_sdk::ParentBasedSampler(rec));
+  else
+    sampler.reset(new FwdSampler(rec));
+  auto *gen = new ScriptedIds;
+  trace_sdk::TracerProvider provider(std::unique_ptr<trace_sdk::SpanProcessor>(new NullProcessor), the_resource(),
+                                     std::move(sampler), std::unique_ptr<trace_sdk::IdGenerator>(gen));
+  auto tracer = provider.GetTracer("c12-delegate");
+  for (size_t j = 0; j < spans; ++j)
+  {
+    gen->next = rs.ids[r.below(rs.ids.size())].id;
+    if (!gen->next.IsValid())
+      continue;
+    int calls0 = rec->calls;
+    auto span  = tracer->StartSpan("root");
+    auto sc    = span->GetContext();
+    std::string cls = dkind + (via_parent_based ? "-via-parent-based" : "");
+    count("tracer_delegate_root_spans");
+    count(("tracer_delegate_root_" + std::string(decision_name(rec->last_decision))).c_str());
+    if (rec->calls != calls0 + 1)
+    {
+      R.violation("parent-invalid-delegates-once", "tracer-root-span-" + cls,
+                  "sampler consulted " + std::to_string(rec->calls - calls0) + " time(s) for a root span");
+      span->End();
+      continue;
+    }
+    bool want = rec->last_decision == Decision::RECORD_AND_SAMPLE;
+    if (sc.IsSampled() != want)
+      R.violation("tracer-root-follows-sampler", cls,
+                  "sampler decided " + std::string(decision_name(rec->last_decision)) + " for trace id " + id_hex(sc.trace_id()) +
+                      ", started span has sampled=" + (sc.IsSampled() ? "1" : "0"));
+    if (via_parent_based)
+    {
+      // a local child: explicit parent context, or the span made active on this thread
+      int calls1 = rec->calls;
+      nostd::shared_ptr<trace_api::Span> child;
+      bool by_scope = r.coin();
+      if (by_scope)
+      {
+        trace_api::Scope scope(span);
+        child = tracer->StartSpan("child");
+      }
+      else
+      {
+        trace_api::StartSpanOptions co;
+        co.parent = sc;
+        child     = tracer->StartSpan("child", co);
+      }
+      auto cc = child->GetContext();
+      count("tracer_delegate_child_spans");
+      std::string ccls = std::string("local-") + (want ? "sampled" : "unsampled") + "-" + decision_name(rec->last_decision);
+      if (cc.IsSampled() != want)
+        R.violation("tracer-child-follows-parent", ccls,
+                    std::string("local child (") + (by_scope ? "active span" : "explicit parent") + ") of a root the sampler decided " +
+                        decision_name(rec->last_decision) + " has sampled=" + (cc.IsSampled() ? "1" : "0"));
+      if (cc.trace_id() != sc.trace_id())
+        R.violation("tracer-child-follows-parent", ccls + "-trace-id", "child is in another trace than its parent");
+      if (rec->calls != calls1)
+        R.violation("parent-valid-no-delegate", "tracer-" + ccls, "root sampler consulted for a span with a valid local parent");
+      child->End();
+    }
+    span->End();
+  }
+}
+
 int main(int argc, char **argv)
 {
   auto &R = vf::report();
@@ -1002,6 +1097,7 @@ int main(int argc, char **argv)
     ratio_part(r, rs, nids, &chash);
     parent_part(r, rs, parent_trials, &chash);
     tracer_part(r, rs, tracer_spans);
+    tracer_delegate_part(r, rs, tracer_spans);
     R.nontrivial(chash);
     count.flush();
   });
